@@ -332,8 +332,18 @@ func ruleR25_3(c *Check) {
 				}
 			}
 			if as, ok := m.(*ast.AssignStmt); ok && len(as.Lhs) == 1 {
-				if id, ok := as.Lhs[0].(*ast.Ident); ok && id.Name == "start" && w.mentions(as.Rhs[0], keyVar) {
-					startFromKey = true
+				// the variable carried to the next iteration as the next range's left end
+				if id, ok := as.Lhs[0].(*ast.Ident); ok && w.mentions(as.Rhs[0], keyVar) {
+					if v, ok := w.Use(id).(*types.Var); ok {
+						ast.Inspect(rs.Body, func(m2 ast.Node) bool {
+							if kv2, ok := m2.(*ast.KeyValueExpr); ok {
+								if kid, ok := kv2.Key.(*ast.Ident); ok && w.Use(kid) == types.Object(left) && w.mentions(kv2.Value, v) {
+									startFromKey = true
+								}
+							}
+							return true
+						})
+					}
 				}
 			}
 			return true
